@@ -10,3 +10,4 @@ uint64_t __ir2c_ctlz(uint64_t x, int w); uint64_t __ir2c_cttz(uint64_t x, int w)
 int __ir2c_ext_subtype(char* t, char* base);
 int __ir2c_is_subtype(char* t, char* base);
 void __ir2c_init_globals(void); void __ir2c_run_ctors(void);
+extern char __ir2c_dummy_vt[128];
